@@ -92,7 +92,26 @@ Theorem varstack_refines_lexical_env_partial : forall rs globals root,
 Proof. exact varstack_refines_lexical_env_partial_thm. Qed.
 Print Assumptions varstack_refines_lexical_env_partial.
 
-(* without the guard: a with-param activated by the xsl:param of one template instance stays active
+(* The repaired variant (params deactivated when a template instance ends), WITHOUT that guard: full lexical
+   scoping. In particular a with-param the invoked template does not declare is invisible to it (XSLT 1.0
+   11.6: pushParams pushes INACTIVE param entries, findEntry skips them unless asked by xsl:param), whatever
+   top-level variable has the same name. *)
+Theorem varstack_refines_lexical_env : forall globals root,
+  ok_root false root = true -> impl_run true globals root = Some (spec_run globals root).
+Proof. exact varstack_refines_lexical_env_thm. Qed.
+Print Assumptions varstack_refines_lexical_env.
+
+(* non-vacuity: the invoked template declares param 4 only; with-params 5 and 4 are passed; $5 (directly and in a
+   nested block) sees the top-level 100, not the passed 7 - in both variants *)
+Example undeclared_with_param_is_invisible :
+  let w := (Tmpl 1 [] [Invoke [(5, 7); (4, 9)] [Tmpl 2 [(4, 1)] [Use 5; Use 4; Block 9 [Var 6 60; Use 5]]]; Use 5])%N in
+  ok_root false w = true /\ ok_root true w = false /\
+  impl_run true [(5, 100)]%N w = Some [(5, Some 100); (4, Some 9); (5, Some 100); (5, Some 100)]%N /\
+  impl_run false [(5, 100)]%N w = Some [(5, Some 100); (4, Some 9); (5, Some 100); (5, Some 100)]%N.
+Proof. vm_compute. repeat split; reflexivity. Qed.
+Print Assumptions undeclared_with_param_is_invisible.
+
+(* without the repair and without the guard: a with-param activated by the xsl:param of one template instance stays active
    for the template instances that follow under the same xsl:apply-templates (resetParams is never
    called), where it shadows the top-level variable of the same name *)
 Theorem varstack_refines_lexical_env_refuted :
